@@ -1742,6 +1742,9 @@ impl<'a, 'b, W: Write> Serializer for &'a mut YamlSerializer<'b, W> {
             });
         }
         // Otherwise (top-level or sequence context), emit the variant name at current depth.
+        // A complex key that continues after "? " puts the variant label two columns in.
+        let after_key_mark =
+            !self.at_line_start && self.pending_inline_map && self.after_dash_depth.is_none();
         if self.at_line_start {
             self.write_indent(self.depth)?;
         }
@@ -1753,6 +1756,10 @@ impl<'a, 'b, W: Write> Serializer for &'a mut YamlSerializer<'b, W> {
         // If this variant follows a list dash, indent two levels under the dash (one for the element, one for the mapping).
         if let Some(d) = self.after_dash_depth.take() {
             depth_next = d + 2;
+            self.pending_inline_map = false;
+        } else if after_key_mark {
+            // Likewise after "? ": the fields go below the label, not next to it.
+            depth_next = self.depth + 2;
             self.pending_inline_map = false;
         }
         Ok(StructVariantSer {
